@@ -224,10 +224,13 @@ fn exec_inner(op: &str) -> String {
         None => return "bad-op".into(),
     };
     match (parts[0], vals.as_slice()) {
-        ("cmp", [a, b]) => match catch_unwind(AssertUnwindSafe(|| a.cmp(b))) {
-            Ok(Ordering::Less) => "lt".into(),
-            Ok(Ordering::Equal) => "eq".into(),
-            Ok(Ordering::Greater) => "gt".into(),
+        // `partial_cmp` (and hence `<`, `<=`, …) must be the total order: anything else is reported instead of the
+        // order itself
+        ("cmp", [a, b]) => match catch_unwind(AssertUnwindSafe(|| (a.cmp(b), a.partial_cmp(b)))) {
+            Ok((o, p)) if p != Some(o) => "partial-cmp-differs".into(),
+            Ok((Ordering::Less, _)) => "lt".into(),
+            Ok((Ordering::Equal, _)) => "eq".into(),
+            Ok((Ordering::Greater, _)) => "gt".into(),
             Err(_) => "panic".into(),
         },
         ("eq", [a, b]) => match catch_unwind(AssertUnwindSafe(|| a == b)) {
